@@ -767,6 +767,10 @@ def r028(an, rep):
         ([(EXT, 1), (EXT, 2), (EXT, 3), (OP, 4)], [(16909060, 0, 8)]),
         ([(OP, 5), (EXT, 1), (OP, 0), (OP, 9)], [(5, 0, 2), (256, 2, 6), (9, 6, 8)]),
         ([(EXT, 0), (OP, 200), (EXT, 255), (OP, 255)], [(200, 0, 4), (65535, 4, 8)]),
+        # three prefixes with the top bit set: the interpreter's oparg is a C int and wraps (so does dis since bpo-46724): 0xFFFFFFF0 is -16, 0x80000000 is -2**31
+        ([(EXT, 255), (EXT, 255), (EXT, 255), (OP, 240)], [(-16, 0, 8)]),
+        ([(EXT, 128), (EXT, 0), (EXT, 0), (OP, 0), (OP, 1)], [(-2 ** 31, 0, 8), (1, 8, 10)]),
+        ([(EXT, 127), (EXT, 255), (EXT, 255), (OP, 255)], [(2 ** 31 - 1, 0, 8)]),
     ]
     got = []
     for units, exp in W:
